@@ -1,6 +1,7 @@
 package rules
 
 import (
+	"go/token"
 	"go/ast"
 	"go/types"
 	"sort"
@@ -21,13 +22,55 @@ func constDenoms(ff *core.FuncFacts, coins ssa.Value) ([]string, bool) {
 	}
 	var out []string
 	for _, d := range denoms {
-		s, ok := constString(ff, d)
+		ss, ok := constStrings(ff, d)
+		if !ok {
+			return nil, false
+		}
+		out = append(out, ss...)
+	}
+	return out, true
+}
+
+// constStrings: the constant strings a value can be — a constant, or an element of a
+// package-level slice that is initialised once with constants (a named list of denoms).
+func constStrings(ff *core.FuncFacts, v ssa.Value) ([]string, bool) {
+	if s, ok := constString(ff, v); ok {
+		return []string{s}, true
+	}
+	u, ok := ff.Fwd(v).(*ssa.UnOp)
+	if !ok || u.Op != token.MUL {
+		return nil, false
+	}
+	ia, ok := u.X.(*ssa.IndexAddr)
+	if !ok {
+		return nil, false
+	}
+	ld, ok := ff.Fwd(ia.X).(*ssa.UnOp)
+	if !ok || ld.Op != token.MUL {
+		return nil, false
+	}
+	g, ok := ld.X.(*ssa.Global)
+	if !ok {
+		return nil, false
+	}
+	iv := ff.GlobalInit(g)
+	if iv == nil || iv.Parent() == nil {
+		return nil, false
+	}
+	iff := ff.P.Facts(iv.Parent())
+	els, ok := core.SliceLiteral(iff.Fwd(iv))
+	if !ok {
+		return nil, false
+	}
+	var out []string
+	for _, e := range els {
+		s, ok := constString(iff, e)
 		if !ok {
 			return nil, false
 		}
 		out = append(out, s)
 	}
-	return out, true
+	return out, len(out) > 0
 }
 
 // unwrapSort strips coins.Sort().
@@ -167,19 +210,7 @@ func checkStripHelpers(P *core.Program, R *core.Report, eden, edenb string) {
 			R.Add("C15-strip-helper", key, "function", "-", false, "unresolved anchor")
 			continue
 		}
-		ff := P.Facts(fn)
-		stripped := map[string]bool{}
-		for _, c := range core.Calls(fn) {
-			sc := c.Common().StaticCallee()
-			if sc == nil || sc.Name() != "Sub" || sc.Signature.Recv() == nil || core.NamedName(sc.Signature.Recv().Type()) != "Coins" {
-				continue
-			}
-			if ds, ok := constDenoms(ff, c.Common().Args[1]); ok {
-				for _, d := range ds {
-					stripped[d] = true
-				}
-			}
-		}
+		stripped := strippedDenoms(P, fn, 0)
 		R.Add("C15-strip-helper", key, "strips Eden and EdenB", P.Pos(fn.Pos()), stripped[eden] && stripped[edenb] && len(stripped) == 2,
 			"the helper must remove exactly the Eden and EdenB coins from the amount handed on to the bank")
 	}
@@ -270,4 +301,66 @@ func hasMintBurn(perms []string) bool {
 		}
 	}
 	return false
+}
+
+// strippedDenoms: the constant denoms whose coins fn subtracts from its coins parameter
+// before handing the rest on; a function that only forwards its coins to another keeper
+// method and returns that method's result strips what that method strips.
+func strippedDenoms(P *core.Program, fn *ssa.Function, depth int) map[string]bool {
+	ff := P.Facts(fn)
+	stripped := map[string]bool{}
+	for _, c := range core.Calls(fn) {
+		sc := c.Common().StaticCallee()
+		if sc == nil || sc.Name() != "Sub" || sc.Signature.Recv() == nil || core.NamedName(sc.Signature.Recv().Type()) != "Coins" {
+			continue
+		}
+		if ds, ok := constDenoms(ff, c.Common().Args[1]); ok {
+			for _, d := range ds {
+				stripped[d] = true
+			}
+		}
+	}
+	if len(stripped) > 0 || depth >= 2 {
+		return stripped
+	}
+	// pure delegation: every non-error return value is result #0 of one call that receives
+	// the coins parameter unchanged
+	var coinsParam ssa.Value
+	for _, p := range fn.Params {
+		if core.NamedName(p.Type()) == "Coins" {
+			coinsParam = p
+		}
+	}
+	if coinsParam == nil {
+		return stripped
+	}
+	var target *ssa.Function
+	for _, ex := range ff.Exits() {
+		ret, ok := ex.Instr.(*ssa.Return)
+		if !ok || len(ret.Results) == 0 {
+			continue
+		}
+		v := ff.Fwd(ret.Results[0])
+		if e, ok := v.(*ssa.Extract); ok && e.Index == 0 {
+			v = e.Tuple
+		}
+		call, ok := v.(*ssa.Call)
+		if !ok || call.Common().StaticCallee() == nil {
+			return stripped
+		}
+		passes := false
+		for _, a := range call.Common().Args {
+			if ff.Fwd(a) == coinsParam {
+				passes = true
+			}
+		}
+		if !passes || (target != nil && target != call.Common().StaticCallee()) {
+			return stripped
+		}
+		target = call.Common().StaticCallee()
+	}
+	if target != nil && target.Blocks != nil && core.InModule(target) {
+		return strippedDenoms(P, target, depth+1)
+	}
+	return stripped
 }
